@@ -63,11 +63,53 @@ class Cfg:
             for e in es:
                 self.succ[i].append(e)
                 self.pred[e.dst].append(e)
+        self._thread_bool_flags()
         self._dom = None
         self._reach_cache = {}
         # unreachable-terminator blocks (otherwise edges into them are infeasible)
         self.unreachable_blocks = {b["id"] for b in self.blocks
                                    if b["term"]["k"] == "unreachable" and not b["stmts"]}
+
+    def _thread_bool_flags(self):
+        """Jump threading for `matches!`/`&&`/`||` lowering: a block that only dispatches on a bool temporary which every
+        predecessor has just set to a constant is bypassed (pred -> the target its constant selects).  Sound for reachability:
+        the dispatcher block has no statements."""
+        self.threaded = {}
+        for b in self.blocks:
+            i = b["id"]
+            t = b["term"]
+            if b["stmts"] or t["k"] != "switch" or i in self.cleanup:
+                continue
+            d = t["discr"]
+            if d.get("k") not in ("copy", "move") or d["p"].get("p"):
+                continue
+            f = d["p"]["l"]
+            preds = list(self.pred.get(i, []))
+            if not preds:
+                continue
+            for e in preds:
+                if e.kind != "goto":
+                    continue
+                pb = self.blocks[e.src]
+                val = None
+                for s in pb["stmts"]:
+                    if s["k"] == "assign" and not s["dst"].get("p") and s["dst"]["l"] == f:
+                        rv = s["rv"]
+                        if rv["k"] == "use" and rv["a"].get("k") == "const" and isinstance(rv["a"].get("value"), int):
+                            val = rv["a"]["value"]
+                        else:
+                            val = None
+                if val is None:
+                    continue
+                hit = [tgt for v, tgt in t["targets"] if v == val]
+                tgt = hit[0] if hit else t["otherwise"]
+                # redirect e.src -> i  into  e.src -> tgt
+                self.succ[e.src] = [x for x in self.succ[e.src] if x is not e]
+                self.pred[i] = [x for x in self.pred[i] if x is not e]
+                ne = Edge(e.src, tgt, "goto")
+                self.succ[e.src].append(ne)
+                self.pred[tgt].append(ne)
+                self.threaded[(e.src, i)] = tgt
 
     # ------------------------------------------------------------------
     def block(self, i):
